@@ -281,6 +281,39 @@ def rule_edgeguard(ctx, rep, rid="R-C07-edgeguard"):
                           "repeats a name seen earlier gets no edge, and a cycle through it is not a cycle of the graph" % bad)
             else:
                 r.ok(inst, loc_str(b.f, c.loc))
+    # the same for the recursion that produces a declaration's edges: whether a declaration's body is walked may not depend on the state
+    # of the graph (a name is "already there" as soon as an earlier declaration referred to it)
+    for b in sorted(ctx.prog.bodies.values(), key=lambda x: x.id):
+        im = b.f.get("impl") or {}
+        if im.get("self") != VIS or im.get("trait_def") != "ironplc_dsl::visitor::Visitor" or "::test" in norm(b.id):
+            continue
+        dom = b.dominators()
+        for c in b.calls():
+            if not (c.callee or c.u or "").endswith("recurse_visit"):
+                continue
+            for d_ in dom.get(c.bb, set()):
+                si = switch_info(b, d_)
+                if not si or si["subject"][0] != "call":
+                    continue
+                g = si["subject"][1]
+                users = [g]
+                # `x.is_none()` / `x.is_some()` of a call result
+                if (g.callee or "").endswith(("Option::is_none", "Option::is_some", "Option::<T>::is_none", "Option::<T>::is_some")) and g.args:
+                    gp = op_place(g.args[0])
+                    gd = b.single_def(b.root(gp)[0]) if gp is not None else None
+                    if gd and gd[0] == "call":
+                        users.append(gd[2])
+                for gg in users:
+                    if not gg.args:
+                        continue
+                    rp = op_place(gg.args[0])
+                    rt = b.root(rp) if rp is not None else None
+                    fs = [x for x in (rt[1] if rt else []) if isinstance(x, list) and x[0] == "f"]
+                    gm = (gg.callee or "")
+                    state = rt is not None and rt[0] == 1 and fs and fs[0][2] in ("declarations",) and (gm.startswith("ironplc_analyzer::") or re.search(r"HashMap|HashSet|BTree", gm))
+                    if state and si["kind"] in ("disc", "bool"):
+                        r.finding("%s|walk guarded by %s" % (b.f["name"], gm.split("::")[-1]), loc_str(b.f, c.loc), "whether the body of the declaration is walked (and its references become edges) depends "
+                                  "on %s() of the graph built so far: a declaration that an earlier one already referred to is skipped, so every cycle of two or more declarations disappears" % gm.split("::")[-1])
     if not n:
         rep.error(rid, "no add_edge site found")
 
